@@ -132,6 +132,8 @@ def gen_session(seed, i, tier, special=None):
         plan.append("wash on %s %s" % rng.choice([("AA", "DD"), ("55", "22"), ("00", "FF")]))
     if rng.chance(1, 2):
         plan.append("heapbase " + rng.choice(["200000000000", "31000000b000", "2aaa00007000"]))
+    if rng.chance(1, 6):
+        plan.append("mmaps %d" % rng.choice([26, 40, 200]))
     final_nl = not rng.chance(1, 5)
     cut = rng.range(1, len(forms)) if rng.chance(1, 2) else None
     return {"i": i, "dialect": dialect, "special": special, "forms": forms, "chunks": chunks, "plan": plan, "final_nl": final_nl, "cut": cut, "files": aux}
